@@ -34,6 +34,60 @@ assumption about the types of the values involved):
  (E3) The guard of `_break` that delivers the queued messages is recognised as "an if statement without else whose
       test is a state test over exactly {EVENTUAL, CHAINED} (directly or via E2) and whose body is the single
       statement self._deliver_queued_messages()", instead of by its text.
+ (E4) "pure value temporaries" (extends the rewriting step of E1, same side conditions on x and on the function):
+      `x = E` immediately followed by S is also rewritten to S[x := E] -- whatever S evaluates before it reaches x --
+      when E is built only from loads of never-assigned PARAMETERS, constants, and tuple displays of such.
+      Argument: evaluating such an E cannot raise, has no side effect, and yields an equal value (a fresh tuple of the same
+      objects) at whichever point of S it is evaluated: parameters are fast locals that only a statement of this function
+      could rebind, there is none, and S (an expression statement / return / single-name assignment / if-test of a
+      function without nested scopes, and -- checked -- without a walrus) cannot.  x occurs once in S and nowhere else, so
+      E is evaluated at most once, like before.  Example: `event = (cb, args, kwargs); self._events.append(event)` ==
+      `self._events.append((cb, args, kwargs))`.
+ (E5) `for v in IT:  T = v;  REST`  is read as  `for T in IT:  REST`  when v is a plain local name that is stored only as
+      this loop target and loaded only by that first statement of the loop body, T is a tuple/list of plain names other
+      than v, and the function has no nested scope and never mentions locals/vars/eval/exec/dir.
+      Argument: per iteration both forms fetch the next item and unpack THE SAME object into T before anything else of the
+      body runs; the unpacking raises the same exception (wrong length / not iterable) at a point that is enclosed by
+      exactly the same try blocks (the statement sits directly in the loop body); break/continue/else are untouched.  The
+      only difference is that v stays bound to the last item, which nothing can observe: v has no other load.
+ (E6) `while A:  if B: break;  REST`  (also with REST as the else-branch; the while has no else) is read as
+      `while A and not B:  REST`.
+      Argument: every round evaluates the truth of A; if false both leave the loop to the same continuation (no
+      while-else); otherwise both evaluate the truth of B exactly once (`not B` calls bool(B) once, like `if B`); if true
+      `break` and a false loop test leave to the same continuation, else REST runs and the loop repeats.  `continue` in
+      REST jumps to the test in both forms, `break` leaves in both.  No assumption on the types of A and B.
+ E4..E6 are applied, like the rewriting of E1, to BOTH the function and its reference version before the canonical forms
+ are compared; a function is still only accepted when the two canonical forms are identical, so an edit that changes
+ what a function does (C17-s1: snapshot loop, C17-r2s1: `except Exception`, C17-r3s2: batches capped, C17-r5s1: extra
+ queue) is not accepted by these rules.
+ (E7) In a method of a class C that is declared `class C(object)` (or without bases) and whose body defines no
+      `__setattr__`, `__slots__`, `__getattribute__`, no property / descriptor / function named A or `_state` (a
+      class-level default `_state = <constant name>` is allowed: an int is not a descriptor), the sequence
+          t = (self._state in (...))          # a state test, t a local stored once and loaded once
+          self.A1 = x1; ...; self.Ak = xk     # k >= 1 plain instance-attribute stores, Ai != '_state', xi parameters
+          if t: ...
+      is read as the same statements with the test `self._state in (...)` placed in the `if`.  Argument: without
+      `__setattr__` / data descriptors on the class (object's own `__setattr__` is used), `self.Ai = xi` only binds
+      the key Ai in the instance dictionary (or raises before doing anything, in either order of the statements the
+      same exception at the same point relative to all other effects, because the state test itself cannot raise:
+      `_state` is found either in the instance dictionary or as the class default, and `in` on a tuple of ints compares
+      ints); it does not rebind `_state`, and loading a parameter has no effect.  So the value of the state test is
+      the same before and after those stores; t is dead afterwards.
+ (E8) `for X in L:` whose body starts with `(a, b, ..) = X`, X being a local of the function that is neither loaded nor
+      stored anywhere else, is read as `for (a, b, ..) in L:` with the rest of the body.  Argument: the for statement
+      binds X to the item and the first body statement immediately unpacks that same object; binding the tuple target
+      directly performs the same unpacking (same TypeError/ValueError, raised before anything else of the iteration
+      happens); X is otherwise dead.
+ (E9) Precondition, decided on the whole module promise.py: every assignment to an attribute named `_state` (of any
+      object) assigns one of the state constants EVENTUAL / CHAINED / NEAR / BROKEN by name (each bound once, at top
+      level, to an int), the class default is `_state = EVENTUAL`, and the module contains no `setattr`, `__dict__`,
+      `vars(` or augmented assignment that could store it otherwise.  Then `self._state` is always an int, and
+          x = self._state
+          if T1(x): .. elif T2(x): .. else: ..
+      where every Ti compares x (==, !=, in, not in) with state constants / tuples of them and x is a local used
+      nowhere else, is read with `self._state` in place of x.  Argument: comparing ints with ints and tuples of ints
+      runs no user code, so nothing can rebind `_state` between the single read and the tests; re-reading it yields
+      the same int.
 Everything else still fails closed (Untranslatable)."""
 import ast
 from translate import pylite as P
@@ -92,6 +146,22 @@ def _pure_prefix_forward(fn):
             return "impure"
         return "impure"
 
+    def pure_value(e):
+        """(E4) a constant, a load of a never-assigned parameter, or a tuple display of such"""
+        if isinstance(e, ast.Constant):
+            return True
+        if isinstance(e, ast.Name):
+            return isinstance(e.ctx, ast.Load) and e.id in safe_params
+        if isinstance(e, ast.Tuple):
+            return isinstance(e.ctx, ast.Load) and all(pure_value(x) for x in e.elts)
+        return False
+
+    def occurs_once(e, x):
+        """x is loaded exactly once inside expression e, and e has no walrus"""
+        if any(isinstance(n, ast.NamedExpr) for n in ast.walk(e)):
+            return False
+        return sum(1 for n in ast.walk(e) if isinstance(n, ast.Name) and n.id == x and isinstance(n.ctx, ast.Load)) == 1
+
     def head(st):
         if isinstance(st, (ast.Expr, ast.Return)) and st.value is not None:
             return st, "value"
@@ -119,7 +189,8 @@ def _pure_prefix_forward(fn):
                 x = st.targets[0].id
                 holder, field = head(nxt)
                 if holder is not None and x not in params and stores.get(x) == 1 and loads.get(x) == 1 \
-                        and reach(getattr(holder, field), x) == "found":
+                        and (reach(getattr(holder, field), x) == "found"
+                             or (pure_value(st.value) and occurs_once(getattr(holder, field), x))):      # (E4)
                     setattr(holder, field, Put(x, st.value).visit(getattr(holder, field)))
                     stmts = stmts[:i] + stmts[i + 1:]
                     continue
@@ -134,7 +205,41 @@ def _pure_prefix_forward(fn):
             i += 1
         return out
     f.body = fw(f.body)
+    if not any(isinstance(n, ast.Name) and n.id in ("locals", "vars", "eval", "exec", "dir") for n in ast.walk(f)):
+        f.body = _loop_forms(f.body, loads, stores, params)
     return ast.fix_missing_locations(f)
+
+
+def _loop_forms(stmts, loads, stores, params):
+    """(E5) and (E6) of the module docstring, applied bottom-up to a statement list of a function without nested scopes"""
+    out = []
+    for st in stmts:
+        for fld in ("body", "orelse", "finalbody"):
+            sub = getattr(st, fld, None)
+            if isinstance(sub, list) and sub and isinstance(sub[0], ast.stmt):
+                setattr(st, fld, _loop_forms(sub, loads, stores, params))
+        if isinstance(st, ast.Try):
+            for h in st.handlers:
+                h.body = _loop_forms(h.body, loads, stores, params)
+        # (E5)  for v in IT: T = v; REST   ->   for T in IT: REST
+        if isinstance(st, ast.For) and isinstance(st.target, ast.Name) and len(st.body) >= 2:
+            v, first = st.target.id, st.body[0]
+            if v not in params and stores.get(v) == 1 and loads.get(v) == 1 \
+                    and isinstance(first, ast.Assign) and len(first.targets) == 1 \
+                    and isinstance(first.value, ast.Name) and first.value.id == v \
+                    and isinstance(first.targets[0], (ast.Tuple, ast.List)) \
+                    and all(isinstance(e, ast.Name) and e.id != v for e in first.targets[0].elts):
+                st.target = first.targets[0]
+                st.body = st.body[1:]
+        # (E6)  while A: if B: break; REST   ->   while A and not B: REST
+        if isinstance(st, ast.While) and not st.orelse and st.body and isinstance(st.body[0], ast.If):
+            g = st.body[0]
+            rest = list(g.orelse) + list(st.body[1:])
+            if len(g.body) == 1 and isinstance(g.body[0], ast.Break) and rest:
+                st.test = ast.BoolOp(op=ast.And(), values=[st.test, ast.UnaryOp(op=ast.Not(), operand=g.test)])
+                st.body = rest
+        out.append(st)
+    return out
 
 
 _e1_done = set()
@@ -162,6 +267,180 @@ def accept_equivalent_functions(mod, rel, log):
         if a is not None and a == b:
             lst[idx] = copy.deepcopy(rfn)
             log.append("(* g_eventual E1: %s.%s is equivalent to its reference version; reference text used *)" % (rel, q))
+
+
+# ------------------------------------------------------------------------------------------------ (E7) (E8) (E9)
+def _name_uses(fn, name):
+    loads = stores = 0
+    for n in ast.walk(fn):
+        if isinstance(n, ast.Name) and n.id == name:
+            if isinstance(n.ctx, ast.Load):
+                loads += 1
+            else:
+                stores += 1
+    return loads, stores
+
+
+def _plain_function(fn):
+    for n in ast.walk(fn):
+        if n is not fn and isinstance(n, (ast.FunctionDef, ast.AsyncFunctionDef, ast.Lambda, ast.ListComp, ast.SetComp,
+                                         ast.DictComp, ast.GeneratorExp, ast.Global, ast.Nonlocal, ast.ClassDef)):
+            return False
+        if isinstance(n, ast.Delete) and any(isinstance(t, ast.Name) for t in n.targets):
+            return False
+    return True
+
+
+def unpack_loop_variables(fn, log, where):
+    """(E8) on every for loop of fn (in place)"""
+    if not _plain_function(fn):
+        return
+    params = {a.arg for a in fn.args.args + fn.args.kwonlyargs + fn.args.posonlyargs}
+    for n in ast.walk(fn):
+        if isinstance(n, ast.For) and isinstance(n.target, ast.Name) and len(n.body) >= 2:
+            x = n.target.id
+            st = n.body[0]
+            if x in params or not (isinstance(st, ast.Assign) and len(st.targets) == 1 and isinstance(st.targets[0], ast.Tuple)
+                                   and isinstance(st.value, ast.Name) and st.value.id == x):
+                continue
+            if not all(isinstance(e, ast.Name) for e in st.targets[0].elts) or any(e.id == x for e in st.targets[0].elts):
+                continue
+            if _name_uses(fn, x) != (1, 1):
+                continue
+            n.target = st.targets[0]
+            n.body = n.body[1:]
+            log.append("(* g_eventual E8: %s: loop variable %s unpacked in the loop header *)" % (where, x))
+    ast.fix_missing_locations(fn)
+
+
+def class_has_plain_attributes(cls, attrs):
+    """side conditions of (E7) on the class"""
+    if any(not (isinstance(b, ast.Name) and b.id == "object") for b in cls.bases) or cls.keywords or cls.decorator_list:
+        return False
+    bad = {"__setattr__", "__slots__", "__getattribute__", "__delattr__"}
+    for st in cls.body:
+        if isinstance(st, (ast.FunctionDef, ast.AsyncFunctionDef, ast.ClassDef)):
+            if st.name in bad or st.name in attrs or st.name == "_state":
+                return False
+        elif isinstance(st, ast.Assign):
+            for t in st.targets:
+                for nm in ast.walk(t):
+                    if isinstance(nm, ast.Name):
+                        if nm.id in bad or nm.id in attrs:
+                            return False
+                        if nm.id == "_state" and not isinstance(st.value, (ast.Name, ast.Constant)):
+                            return False
+        elif isinstance(st, (ast.AnnAssign, ast.AugAssign)):
+            return False
+    return True
+
+
+def forward_state_test(cls, fn, log, where):
+    """(E7) on the top-level statements of fn (in place)"""
+    if not _plain_function(fn):
+        return
+    params = {a.arg for a in fn.args.args + fn.args.kwonlyargs + fn.args.posonlyargs}
+    body = fn.body
+    for i, st in enumerate(body):
+        if not (isinstance(st, ast.Assign) and len(st.targets) == 1 and isinstance(st.targets[0], ast.Name)):
+            continue
+        t = st.targets[0].id
+        v = st.value
+        if t in params or not (isinstance(v, ast.Compare) and len(v.ops) == 1 and isinstance(v.ops[0], ast.In)
+                               and is_self_attr(v.left, "_state") and isinstance(v.comparators[0], (ast.Tuple, ast.List, ast.Name))):
+            continue
+        if _name_uses(fn, t) != (1, 1):
+            continue
+        j = i + 1
+        attrs = []
+        while j < len(body) and isinstance(body[j], ast.Assign) and len(body[j].targets) == 1 \
+                and is_self_attr(body[j].targets[0]) and body[j].targets[0].attr != "_state" \
+                and isinstance(body[j].value, ast.Name) and body[j].value.id in params \
+                and _name_uses(fn, body[j].value.id)[1] == 0:
+            attrs.append(body[j].targets[0].attr)
+            j += 1
+        if not attrs or j >= len(body) or not (isinstance(body[j], ast.If) and isinstance(body[j].test, ast.Name)
+                                               and body[j].test.id == t):
+            continue
+        if "self" not in params or _name_uses(fn, "self")[1] != 0 or not class_has_plain_attributes(cls, set(attrs)):
+            continue
+        body[j].test = v
+        del body[i]
+        log.append("(* g_eventual E7: %s: state test %s moved into the if behind the stores of %s *)" % (where, t, ", ".join(attrs)))
+        ast.fix_missing_locations(fn)
+        return
+
+
+def state_attr_is_int_constant(mod, names):
+    """the precondition of (E9)"""
+    src = ast.unparse(mod)
+    if "setattr" in src or "__dict__" in src or "vars(" in src:
+        return False
+    for n in ast.walk(mod):
+        if isinstance(n, ast.AugAssign) and isinstance(n.target, ast.Attribute) and n.target.attr == "_state":
+            return False
+        if isinstance(n, ast.Assign):
+            for t in n.targets:
+                for a in ast.walk(t):
+                    if isinstance(a, ast.Attribute) and a.attr == "_state" and isinstance(a.ctx, ast.Store):
+                        if not (len(n.targets) == 1 and t is a and isinstance(n.value, ast.Name) and n.value.id in names):
+                            return False
+        if isinstance(n, (ast.AnnAssign, ast.NamedExpr, ast.With, ast.For)):
+            for a in ast.walk(n.target if hasattr(n, "target") else n):
+                if isinstance(a, ast.Attribute) and a.attr == "_state" and isinstance(a.ctx, ast.Store):
+                    return False
+    try:
+        consts = P.module_consts(mod, names)
+    except U:
+        return False
+    return all(isinstance(consts.get(k), int) and not isinstance(consts.get(k), bool) for k in names)
+
+
+def inline_state_alias(mod, fn, names, log, where):
+    """(E9) on the top-level statements of fn (in place)"""
+    if not _plain_function(fn) or not state_attr_is_int_constant(mod, names):
+        return
+    params = {a.arg for a in fn.args.args + fn.args.kwonlyargs + fn.args.posonlyargs}
+    if "self" not in params or _name_uses(fn, "self")[1] != 0:
+        return
+    body = fn.body
+    for i, st in enumerate(body[:-1]):
+        if not (isinstance(st, ast.Assign) and len(st.targets) == 1 and isinstance(st.targets[0], ast.Name)
+                and is_self_attr(st.value, "_state") and isinstance(body[i + 1], ast.If)):
+            continue
+        x = st.targets[0].id
+        if x in params:
+            continue
+        tests = []
+        node = body[i + 1]
+        while True:
+            tests.append(node)
+            if len(node.orelse) == 1 and isinstance(node.orelse[0], ast.If):
+                node = node.orelse[0]
+            else:
+                break
+
+        def ok_operand(e):
+            if isinstance(e, ast.Name):
+                return e.id in names
+            return isinstance(e, (ast.Tuple, ast.List)) and all(isinstance(k, ast.Name) and k.id in names for k in e.elts)
+        nload = 0
+        good = True
+        for t in tests:
+            c = t.test
+            if not (isinstance(c, ast.Compare) and len(c.ops) == 1 and isinstance(c.ops[0], (ast.Eq, ast.NotEq, ast.In, ast.NotIn))
+                    and isinstance(c.left, ast.Name) and c.left.id == x and ok_operand(c.comparators[0])):
+                good = False
+                break
+            nload += 1
+        if not good or _name_uses(fn, x) != (nload, 1):
+            continue
+        for t in tests:
+            t.test.left = ast.Attribute(value=ast.Name(id="self", ctx=ast.Load()), attr="_state", ctx=ast.Load())
+        del body[i]
+        log.append("(* g_eventual E9: %s: the alias %s of self._state is read in place *)" % (where, x))
+        ast.fix_missing_locations(fn)
+        return
 
 
 # ------------------------------------------------------------------------------------------------ (E2)
@@ -273,6 +552,25 @@ def gen_eventual(out):
     P.find_class(mod, "_SimpleCallQueue")
     # ---- append
     ap = P.find_def(mod, "_SimpleCallQueue.append")
+    # does append() itself run the callable?  The statement `cb(*args, **kwargs)` at the top level of append or inside
+    # the `if not self._timer:` arm is read as the shape fact ev_append_runs_callable = true (the model interprets it:
+    # the callable runs inside eventually()); the statements are then set aside and the rest of append is read as
+    # before.  Any other use of cb as a callee still fails closed below.
+    ap = copy.deepcopy(ap)
+    runs_cb = [0]
+
+    def drop_cb_calls(stmts):
+        keep = []
+        for st_ in stmts:
+            if isinstance(st_, ast.Expr) and ast.unparse(st_) == "cb(*args, **kwargs)":
+                runs_cb[0] += 1
+            else:
+                keep.append(st_)
+        return keep
+    ap.body = drop_cb_calls(ap.body)
+    for st_ in ap.body:
+        if isinstance(st_, ast.If) and ast.unparse(st_.test) == "not self._timer" and not st_.orelse:
+            st_.body = drop_cb_calls(st_.body) or st_.body
     pos, call = append_position(ap, "_events", "_SimpleCallQueue.append")
     if ast.unparse(call.args[-1]) != "(cb, args, kwargs)":
         raise U("append stores %s" % ast.unparse(call.args[-1]))
@@ -288,10 +586,16 @@ def gen_eventual(out):
         out.append("Definition ev_append_arms_timer : bool := false.  (* append no longer schedules _turn *)")
     else:
         raise U("append schedules _turn in an unexpected way")
-    # the call must not run cb: no call of cb / no direct call in append
+    # no other call of cb in append (the statements `cb(*args, **kwargs)` recognised above were set aside)
     for x in ast.walk(ap):
         if isinstance(x, ast.Call) and isinstance(x.func, ast.Name) and x.func.id == "cb":
-            raise U("append calls cb synchronously")
+            raise U("append calls cb in a way the model does not cover")
+    if runs_cb[0] > 1:
+        raise U("append calls cb more than once")
+    if runs_cb[0]:
+        out.append("Definition ev_append_runs_callable : bool := true.   (* append() contains the call statement cb(..): the callable runs inside eventually() *)")
+    else:
+        out.append("Definition ev_append_runs_callable : bool := false.   (* append() only stores cb; nothing in it calls cb *)")
     # ---- _turn
     tn = P.find_def(mod, "_SimpleCallQueue._turn")
     body = stmts_no_doc(tn)
@@ -434,9 +738,15 @@ def gen_eventual(out):
 
 def gen_promise(out):
     mod = P.load("promise.py")
+    names = ["EVENTUAL", "CHAINED", "NEAR", "BROKEN"]
+    cls0 = P.find_class(mod, "Promise")
+    for f_ in cls0.body:
+        if isinstance(f_, ast.FunctionDef):
+            unpack_loop_variables(f_, NOTES, "Promise." + f_.name)                  # (E8)
+            inline_state_alias(mod, f_, names, NOTES, "Promise." + f_.name)         # (E9)
+    forward_state_test(cls0, P.find_def(mod, "Promise._break"), NOTES, "Promise._break")   # (E7)
     accept_equivalent_functions(mod, "promise.py", NOTES)
     _cur_mod[0] = mod
-    names = ["EVENTUAL", "CHAINED", "NEAR", "BROKEN"]
     consts = P.module_consts(mod, names)
     for k in names:
         if not isinstance(consts[k], int):
